@@ -289,10 +289,38 @@ theorem mid_write (L0 owed0 pend0 G h : Nat) (W : World) (hm : Mid L0 owed0 pend
     simp only []
     omega
 
-theorem settle_sess (X : World) (adv : Bool) : (settle X adv).sess = X.sess := by
+/-- Under `Fits` an acknowledgement or PUBREL never fails its size check, and a retained packet that
+does fails the call without touching the session (`poll` context): `settle` keeps the session. -/
+theorem settle_sess (X : World) (adv : Bool) (hf : Fits X.sess) : (settle X adv).sess = X.sess := by
   unfold settle
-  repeat' split
-  all_goals rfl
+  cases hn : X.sess.data.outbound.nextStep with
+  | none => simp only []; split <;> rfl
+  | some st =>
+    simp only []
+    cases hp : prepareStep X st with
+    | write pkt bytes wr len => rfl
+    | flush pkt => rfl
+    | done => rfl
+    | fail e =>
+      have hso := nextStep_stepOf _ st hn
+      cases hso with
+      | retained e' he hs => rfl
+      | control e' he hs =>
+        exfalso
+        cases hst : e'.state with
+        | sent => exact hs hst
+        | flush => simp [prepareStep, hst] at hp
+        | write n =>
+          obtain ⟨bs, h1, h2⟩ := hf.control e' he
+          simp [prepareStep, hst, h1, h2] at hp
+      | release e' he hs =>
+        exfalso
+        cases hst : e'.state with
+        | sent => exact hs hst
+        | flush => simp [prepareStep, hst] at hp
+        | write n =>
+          obtain ⟨bs, h1, h2⟩ := encodePubrel_len e'.id e'.rc
+          simp [prepareStep, hst, h1, h2, hf.pubrel] at hp
 
 theorem pcOK_flush {W : World} {adv : Bool} {pkt : Flushed} {now : Nat}
     (hf : W.fut = some (.stepFlush (.drive adv .poll) pkt now)) (h : PcOK W) :
@@ -352,7 +380,7 @@ theorem mid_flush (L0 owed0 pend0 G h : Nat) (W : World) (hm : Mid L0 owed0 pend
     intro ⟨h0, hp0⟩
     obtain ⟨⟨dl, y, hfw⟩, _⟩ := hm.quiet0 h0 hp0
     rw [hf] at hfw; cases hfw
-  have hsess : (settle (flushedW W pkt W.now o) true).sess = W.sess.completeFlush pkt W.now := settle_sess _ _
+  have hsess : (settle (flushedW W pkt W.now o) true).sess = W.sess.completeFlush pkt W.now := settle_sess _ _ e1.fits
   have hlive : Live (flushedW W pkt W.now o) := by
     refine ⟨?_, ?_, ?_, hm.live.live, rfl, hm.live.nets, hcalm, e1, hk, ?_, ?_, ?_⟩
     · have := hreach.ids; rw [hsess] at this; exact this
@@ -504,7 +532,7 @@ theorem mid_packet (L0 owed0 pend0 G h : Nat) (W : World) (hm : Mid L0 owed0 pen
   generalize hS : ((took W.sess (W.sess.reader.data ++ W.curNet.rx.take (W.readCount 250))).handle a.image).1 = S
     at r2 r3 r4 r5 r6 r7 r8 r9 hstep
   rw [hstep] at hreach ⊢
-  have hsess : (settle (recvW W S (W.curNet.rx.drop (W.readCount 250)) o) true).sess = S := settle_sess _ _
+  have hsess : (settle (recvW W S (W.curNet.rx.drop (W.readCount 250)) o) true).sess = S := settle_sess _ _ r2.fits
   have hcur : (recvW W S (W.curNet.rx.drop (W.readCount 250)) o).curNet.rx = W.curNet.rx.drop (W.readCount 250) := by
     simp [recvW, World.curNet]
   have hdata : S.reader.data = [] := by rw [r8]; rfl
